@@ -44,6 +44,11 @@ def taint_rule(R, sm, bv):
         if si is None or si.kind != "discr":
             continue
         desc = fmt_t(si.term)
+        # the tested value must be the verifier's answer on every path that merges into it
+        # (`if shortcut { Ok(..) } else { verify_response(..) }` is not a verification)
+        if "verify_response" in desc and not (lib.head_call(si.term) or "").endswith("verify_response"):
+            R.violation("C02-R1", "verify-result-merged:" + bv.name.split("::")[-2], "the value tested as the verification result is not the answer of verify_response on every path: " + desc[:160], lib.loc(bv, bi))
+            continue
         if "verify_response" in desc and "std::ops::Try::branch" in desc and si.ty.get("d") == "std::ops::ControlFlow":
             for b in bv.succ[bi]:
                 if "Continue" in si.edge_names(bv, b):
